@@ -122,7 +122,7 @@ theorem anyOrder_ok {α : Type} (f : α → Memo → Alts × Memo) (xs : List α
 theorem shape_complete {S : Schema} {D : Document} (h : MergeHyp S D) (hac : Acyclic D) :
     ∀ (fuel : Nat) (m : Memo) (a b : FRef), TField S D a → TField S D b → fmuLt S D a fuel → fmuLt S D b fuel →
       ¬ ShapeBad S D Loose a b →
-      ∃ m', sameResponseShape S D (Model.fuelFor D) (fuel + 1) m a b = (.ok, m') := by
+      ∃ m', Model.sameResponseShape S D (Model.fuelFor D) (fuel + 1) m a b = (.ok, m') := by
   intro fuel
   induction fuel with
   | zero =>
@@ -133,7 +133,7 @@ theorem shape_complete {S : Schema} {D : Document} (h : MergeHyp S D) (hac : Acy
     omega
   | succ fuel ih =>
     intro m a b ha hb hka hkb hnb
-    unfold sameResponseShape
+    unfold Model.sameResponseShape
     cases hv : visitPair m.shape a.pos b.pos with
     | mk seen shape' =>
       cases seen with
@@ -152,10 +152,11 @@ theorem shape_complete {S : Schema} {D : Document} (h : MergeHyp S D) (hac : Acy
           by_cases hleaf : (isLeafRef S ua || isLeafRef S ub) = true
           · simp only [hleaf, if_true]
             by_cases he : ua = ub
-            · exact ⟨_, by simp [he]⟩
+            · rw [if_pos he]
+              exact ⟨_, rfl⟩
             · exfalso
               exact hnb (.loc (by simp [shapeLocalOk, hu, hleaf, he]))
-          · simp only [hleaf, if_false]
+          · simp only [hleaf, if_false, Bool.false_eq_true]
             have hdeep : shapeDeep S a b = true := by simp [shapeDeep, hu, hleaf]
             obtain ⟨fs1, hfs1, hm1⟩ := sub_collect h ha []
             obtain ⟨fs, hfs, hm2⟩ := sub_collect h hb fs1
@@ -196,5 +197,140 @@ theorem shape_complete {S : Schema} {D : Document} (h : MergeHyp S D) (hac : Acy
               · exact hy.fmuLt h hac hb hkb
             exact ih m2 p.1 p.2 tx ty kx ky
               (fun hbad => hnb (.deep hdeep hx hy (hp1.2.trans hp2.2.symm) trivial hbad))
+
+theorem TField.fmu_pos {S : Schema} {D : Document} {f : FRef} (hf : TField S D f) : ¬ fmuLt S D f 0 := by
+  intro hk
+  obtain ⟨r, hr, al, n, np, args, dirs, sub, hm, rfl⟩ := hf
+  have := hk r hr (by simp [mkRef])
+  omega
+
+theorem merge_complete {S : Schema} {D : Document} (h : MergeHyp S D) (hac : Acyclic D) :
+    ∀ (fuel : Nat) (m : Memo) (fs : List FRef), (∀ f ∈ fs, TField S D f ∧ fmuLt S D f fuel) →
+      (∀ x ∈ fs, ∀ y ∈ fs, x.rname = y.rname → ¬ MergeBad S D Loose x y) →
+      ∃ m', fieldsInSetCanMerge S D (Model.fuelFor D) (fuel + 1) m fs = (.ok, m') := by
+  intro fuel
+  induction fuel using Nat.strongRecOn with
+  | _ fuel ih =>
+    intro m fs hfs hnb
+    unfold fieldsInSetCanMerge
+    apply anyOrder_ok
+    intro n _ m1
+    apply firstErr_ok
+    intro p hp m2
+    obtain ⟨hp1, hp2⟩ := mem_pairs _ p hp
+    rw [mem_group] at hp1 hp2
+    obtain ⟨a, b⟩ := p
+    simp only at hp1 hp2 ⊢
+    obtain ⟨ta, ka⟩ := hfs a hp1.1
+    obtain ⟨tb, kb⟩ := hfs b hp2.1
+    have hno := hnb a hp1.1 b hp2.1 (hp1.2.trans hp2.2.symm)
+    cases hv : visitPair m2.merge a.pos b.pos with
+    | mk seen merge' =>
+      cases seen with
+      | true => exact ⟨m2, rfl⟩
+      | false =>
+        simp only
+        obtain ⟨m3, hm3⟩ := shape_complete h hac fuel { m2 with merge := merge' } a b ta tb ka kb
+          (fun hb => hno (.shape hb))
+        rw [hm3]
+        simp only
+        obtain ⟨pa, hpa⟩ := (ta.hasType h).2
+        obtain ⟨pb, hpb⟩ := (tb.hasType h).2
+        rw [hpa, hpb]
+        simp only
+        by_cases hc : (pa = pb || !isObjectName S pa || !isObjectName S pb) = true
+        · have hpc : parentsCond S a b = true := by simpa [parentsCond, hpa, hpb] using hc
+          rw [if_pos hc]
+          by_cases hn : a.name = b.name
+          · have hn' : (a.name != b.name) = false := by simp [hn]
+            rw [hn']
+            simp only [Bool.false_eq_true, if_false]
+            cases hd : argumentsDiffer a b with
+            | some e =>
+              exfalso
+              exact hno (.loc hpc (by simp [mergeLocalOk, hd]))
+            | none =>
+              simp only
+              obtain ⟨fs1, hfs1, hm1⟩ := sub_collect h ta []
+              obtain ⟨merged, hmg, hm2⟩ := sub_collect h tb fs1
+              rw [hfs1]
+              simp only
+              rw [hmg]
+              simp only
+              have hmem : ∀ f ∈ merged, Sub S D a f ∨ Sub S D b f := by
+                intro f hf
+                rcases (hm2 f).1 hf with h1 | h1
+                · rcases (hm1 f).1 h1 with h2 | h2
+                  · simp at h2
+                  · exact Or.inl h2
+                · exact Or.inr h1
+              cases fuel with
+              | zero => exact absurd ka ta.fmu_pos
+              | succ k =>
+                apply ih k (by omega)
+                · intro f hf
+                  rcases hmem f hf with hx | hx
+                  · exact ⟨hx.tfield ta, hx.fmuLt h hac ta ka⟩
+                  · exact ⟨hx.tfield tb, hx.fmuLt h hac tb kb⟩
+                · intro x hx y hy hr hbad
+                  exact hno (.deep hpc (hmem x hx) (hmem y hy) hr trivial hbad)
+          · exfalso
+            exact hno (.loc hpc (by simp [mergeLocalOk, hn]))
+        · rw [if_neg hc]
+          exact ⟨_, rfl⟩
+
+theorem two_mul_le_sq (d : Nat) : 2 * d ≤ d * d + 1 := by
+  cases d with
+  | zero => simp
+  | succ e =>
+    have : (e + 1) * (e + 1) = e * e + 2 * e + 1 := by
+      simp only [Nat.add_mul, Nat.mul_add]; omega
+    omega
+
+theorem mu_lt_pairFuel {S : Schema} {D : Document} {r : SetRef} (hr : r ∈ allSets S D) :
+    mu D r + 1 < Model.pairFuelFor D := by
+  unfold mu Model.pairFuelFor
+  have h1 := clos_length_le hr
+  have h2 := setSize_all hr
+  have h3 : (clos D r).length * (Model.docSize D + 1) ≤ Model.docSize D * (Model.docSize D + 1) :=
+    Nat.mul_le_mul_right _ h1
+  have h4 : Model.docSize D * (Model.docSize D + 1) = Model.docSize D * Model.docSize D + Model.docSize D := by
+    simp only [Nat.mul_add]; omega
+  have h5 := two_mul_le_sq (Model.docSize D)
+  omega
+
+/-- Completeness for one selection set: no witness of a violation, so the check of the set passes. -/
+theorem mergeCheckSet_complete {S : Schema} {D : Document} (h : MergeHyp S D) (hac : Acyclic D) {r : SetRef}
+    (hr : r ∈ allSets S D) (hnb : ¬ SetBad S D Loose r) :
+    mergeCheckSet S D (Model.fuelFor D) (Model.pairFuelFor D) r.scope (.mk r.sels r.pos) = .ok := by
+  unfold mergeCheckSet
+  have hroot : (⟨r.scope, (SelSet.mk r.sels r.pos).pos, (SelSet.mk r.sels r.pos).sels⟩ : SetRef) ∈ allSets S D := hr
+  obtain ⟨fs, hfs⟩ := addFieldSelections_ok h.posU (spreadsDefinedT_of_spec h.spreads) hroot []
+  have hmem := addFieldSelections_mem h.posU hroot hfs
+  rw [hfs]
+  simp only
+  have hlt := mu_lt_pairFuel hr
+  obtain ⟨k, hk⟩ : ∃ k, Model.pairFuelFor D = k + 1 := ⟨Model.pairFuelFor D - 1, by omega⟩
+  rw [hk]
+  have hcol : ∀ f ∈ fs, Collects S D r.scope r.pos r.sels f := by
+    intro f hf
+    rcases (hmem f).1 hf with h1 | h1
+    · simp at h1
+    · exact h1
+  obtain ⟨m', hm'⟩ := merge_complete h hac k {} fs
+    (by
+      intro f hf
+      have hc := hcol f hf
+      refine ⟨hc.tfield hr, ?_⟩
+      obtain ⟨rf, hrf, hpf, hle⟩ := hc.parent_mu hac hr
+      intro r' hr' hp'
+      have : r' = rf := set_of_pos h.posU hr' hrf (hp'.trans hpf.symm)
+      subst this
+      have : mu D r' ≤ mu D r := hle
+      omega)
+    (by
+      intro x hx y hy hxy hbad
+      exact hnb ⟨x, y, hcol x hx, hcol y hy, hxy, trivial, hbad⟩)
+  rw [hm']
 
 end ApiFu.C04
